@@ -91,6 +91,20 @@ func runDeferredArg(n int) {
 	}
 }
 
+func quiet() {
+	if r := recover(); r != nil {
+		Swallowed++
+	}
+}
+
+// the statement form is no eta redex at all: nothing is returned
+func runDeferredStmt(n int) {
+	defer func() { quiet() }()
+	if n < 0 {
+		panic("negative")
+	}
+}
+
 func try(run func(int), n int) (res string) {
 	defer func() {
 		if r := recover(); r != nil {
@@ -102,7 +116,7 @@ func try(run func(int), n int) (res string) {
 }
 
 func Probe() string {
-	return try(runDeferred, 1) + " " + try(runDeferred, -1) + " " + try(runDeferredArg, 1) + " " + try(runDeferredArg, -1) + " swallowed=" + strconv.Itoa(Swallowed)
+	return try(runDeferred, 1) + " " + try(runDeferred, -1) + " " + try(runDeferredArg, 1) + " " + try(runDeferredArg, -1) + " " + try(runDeferredStmt, 1) + " " + try(runDeferredStmt, -1) + " swallowed=" + strconv.Itoa(Swallowed)
 }
 
 // a generator: the file is processed, and its lowered range loop tests the generated iterator variable
@@ -228,7 +242,7 @@ func k11(args []string) {
 					}
 					return true
 				})
-				sh.Code = map[string]string{"runDeferred": "defer func() int { return rescue() }()", "runDeferredArg": "defer func(k int) int { return rescueArg(k) }(n)"}[fd.Name.Name]
+				sh.Code = map[string]string{"runDeferred": "defer func() int { return rescue() }()", "runDeferredArg": "defer func(k int) int { return rescueArg(k) }(n)", "runDeferredStmt": "defer func() { quiet() }()"}[fd.Name.Name]
 				shapes = append(shapes, sh)
 			}
 		}
